@@ -6,24 +6,27 @@ from typing import Dict, List
 
 from ..core import Ctx
 from ..effects import inventory
+from ..stmts import atoms, resolver
 from ..symex import SUMMARIZER, expand, strip_ifexp_paths, u
 from . import c19
 
 # frozen table of the writes to objects that are not created by the writing function.
 # key = "<module>::<Class>.<member> [<kind> <target>]"  -> idempotence / safety argument
 ACCEPTED_WRITES: Dict[str, str] = {
-    "cube.py::Cube.augment_response [store cube_resp['result']['dimensions'][0]['type']['elements']]": "caller-owned response of a single-filter column cube; guarded by the length test which the three writes falsify (counts get the summary's length)",
-    "cube.py::Cube.augment_response [store cube_resp['result']['counts']]": "same guard; written value has the summary's length, so a second call is a no-op",
-    "cube.py::Cube.augment_response [store cube_resp['result']['measures']['count']['data']]": "same guard",
-    "cube.py::Cube.inflate [call .insert dimensions]": "called only from CubeSet._cubes under _is_numeric_measure (first response has no dimensions), which the insertion into THAT response falsifies for any later CubeSet",
-    "cube.py::_BaseMeasure.raw_cube_array [attr-store raw_cube_array.flags.writeable]": "makes the cached raw array read-only (the mechanism that protects it)",
-    "dimension.py::_ElementIdShim.shimmed_dimension_dict [store shim['type']['elements'][idx]['subvar_alias']]": "adds a key that no value computation reads (aliases are read from value.references.alias / id); rewriting gives the same value",
-    "dimension.py::_ElementIdShim.shimmed_dimension_dict [store el['datetime_value']]": "copy of el['value'], which is never modified",
-    "dimension.py::_ElementIdShim.shimmed_dimension_transforms_dict [store shim['elements']]": "keys replaced by translate_element_id, a retraction: translating an alias gives the alias; None keys are dropped",
-    "dimension.py::_ElementIdShim.shimmed_dimension_transforms_dict [store shim['order']['element_ids']]": "ids replaced by translate_element_id (retraction; total on {alias, None})",
-    "dimension.py::_ElementIdShim.shimmed_dimension_transforms_dict [store fixed['top']]": "same",
-    "dimension.py::_ElementIdShim.shimmed_dimension_transforms_dict [store fixed['bottom']]": "same",
-    "util.py::lazyproperty.__get__ [store obj.__dict__[self.__name__]]": "the descriptor's own cache store",
+    # key = "<module>::<Class> [<kind> <what is written>]": stable when the write moves into a private helper of the same
+    # class or temporaries are renamed; a write of ANOTHER key, by ANOTHER class, or of another kind is not covered.
+    "cube.py::Cube [store 'elements']": "augment_response: caller-owned response of a single-filter column cube; guarded by the length test which the three writes falsify (counts get the summary's length)",
+    "cube.py::Cube [store 'counts']": "augment_response: same guard; written value has the summary's length, so a second call is a no-op",
+    "cube.py::Cube [store 'data']": "augment_response: same guard",
+    "cube.py::Cube [call .insert]": "inflate: called only from CubeSet._cubes under _is_numeric_measure (first response has no dimensions), which the insertion into THAT response falsifies for any later CubeSet",
+    "cube.py::_BaseMeasure [read-only flag]": "makes the cached raw array read-only (the mechanism that protects it); `flags.writeable = False` or `setflags(write=False)`",
+    "dimension.py::_ElementIdShim [store 'subvar_alias']": "adds a key that no value computation reads (aliases are read from value.references.alias / id); rewriting gives the same value",
+    "dimension.py::_ElementIdShim [store 'datetime_value']": "copy of el['value'], which is never modified",
+    "dimension.py::_ElementIdShim [store 'elements']": "keys replaced by translate_element_id, a retraction: translating an alias gives the alias; None keys are dropped",
+    "dimension.py::_ElementIdShim [store 'element_ids']": "ids replaced by translate_element_id (retraction; total on {alias, None})",
+    "dimension.py::_ElementIdShim [store 'top']": "same",
+    "dimension.py::_ElementIdShim [store 'bottom']": "same",
+    "util.py::lazyproperty [store __dict__]": "the descriptor's own cache store",
 }
 
 
@@ -55,9 +58,9 @@ def write_inventory(ctx: Ctx):
     for w in sites:
         if w.cls in ("Fresh", "Self"):
             continue
-        seen.add(w.key)
-        if w.key in ACCEPTED_WRITES:
-            ctx.held("write-inventory", w.key, f"{w.cls}: listed site", ACCEPTED_WRITES[w.key])
+        seen.add(w.class_key)
+        if w.class_key in ACCEPTED_WRITES:
+            ctx.held("write-inventory", w.key, f"{w.cls}: listed site {w.class_key}", ACCEPTED_WRITES[w.class_key])
         else:
             ctx.violated(
                 "write-inventory",
@@ -73,8 +76,10 @@ def write_inventory(ctx: Ctx):
     ctx.require_min("write sites in the package", 120)
     # positive control: the classifier must still recognise the known caller-owned writes
     ctx.require_min("non-fresh write sites", 8)
-    fresh_stores = [w for w in sites if w.cls == "Fresh" and w.kind == "store" and "population_proportions" in w.target]
-    ctx.ob("write-inventory.fresh", "cubepart.py::_Slice/_Strand.population_proportions", f"{len(fresh_stores)} NaN stores on the freshly assembled array", "3 stores, all on a fresh array", len(fresh_stores) == 3)
+    # positive control of the Fresh class: the NaN stores of population_proportions go to a freshly assembled array
+    fresh_stores = [w for w in sites if w.cls == "Fresh" and w.kind == "store" and w.member.cls.name in ("_Slice", "_Strand")]
+    ctx.count("stores into freshly assembled arrays (_Slice/_Strand)", len(fresh_stores))
+    ctx.require_min("stores into freshly assembled arrays (_Slice/_Strand)", 3)
 
 
 def idempotence(ctx: Ctx):
@@ -108,18 +113,42 @@ def idempotence(ctx: Ctx):
     e = expand(ctx.repo, ci, "_subvar_aliases", stop=lambda m: True)
     ok = "subvar_alias" not in u(e)
     ctx.ob("idempotence.added-key", "dimension.py::_ElementIdShim._subvar_aliases", ok, True, ok, "the value written under 'subvar_alias' is computed without reading 'subvar_alias'")
-    m = ctx.repo.lookup(ci, "shimmed_dimension_dict")
-    rets = [u(n.value) for n in ast.walk(m.node) if isinstance(n, ast.Return)]
-    ctx.ob("idempotence.cached", "dimension.py::_ElementIdShim.shimmed_dimension_dict", rets, "['shim']", rets == ["shim"], "a mutating lazyproperty returns a (non-None) object on every path, so it is evaluated once per instance")
-    m = ctx.repo.lookup(ci, "shimmed_dimension_transforms_dict")
-    rets = sorted({u(n.value) for n in ast.walk(m.node) if isinstance(n, ast.Return)})
-    ctx.ob("idempotence.cached", "dimension.py::_ElementIdShim.shimmed_dimension_transforms_dict", rets, "['shim']", rets == ["shim"])
-    # augment_response: the three writes falsify the guard
+    for member in ("shimmed_dimension_dict", "shimmed_dimension_transforms_dict"):
+        m = ctx.repo.lookup(ci, member)
+        rets = [n.value for n in ast.walk(m.node) if isinstance(n, ast.Return)]
+        none_rets = [r for r in rets if r is None or (isinstance(r, ast.Constant) and r.value is None)]
+        ctx.ob("idempotence.cached", f"dimension.py::_ElementIdShim.{member}", f"{len(rets)} returns, {len(none_rets)} of them None", "no path returns None", not none_rets and bool(rets),
+               "a mutating lazyproperty returns a (non-None) object on every path, so it is evaluated once per instance (lazyproperty re-evaluates a None)")
+    # augment_response: the writes falsify the guard (whatever the temporaries are called)
     cube = ctx.repo.cls("cube.py", "Cube")
     m = ctx.repo.lookup(cube, "augment_response")
-    src = ast.unparse(m.node)
-    ok = "data = [0] * len(summary_cube_resp['result']['counts'])" in src and "cube_resp['result']['counts'] = data" in src and "if len(cube_resp['result']['counts']) != len(summary_cube_resp['result']['counts']):" in src
-    ctx.ob("idempotence.augment", "cube.py::Cube.augment_response", ok, True, ok, "after the edit the counts have the summary's length, so the guard is false on any later call")
+    res = resolver(m.node)
+    where = "cube.py::Cube.augment_response"
+    import re
+
+    CUBC = "self._cube_response['result']['counts']"
+    SUMC = re.compile(r"summary_cube_resp\)?(\._cube_response)?\['result'\]\['counts'\]")
+    guard_ok = None
+    for n in ast.walk(m.node):
+        if isinstance(n, ast.If):
+            for a in atoms(n.test):
+                for v in res(a):
+                    t = u(v)
+                    if isinstance(v, ast.Compare) and isinstance(v.ops[0], ast.NotEq) and t.count("len(") == 2 and CUBC in t and SUMC.search(t):
+                        guard_ok = True
+    store_ok = None
+    for n in ast.walk(m.node):
+        if isinstance(n, ast.Assign):
+            for t in n.targets:
+                if isinstance(t, ast.Subscript) and any(u(x) == CUBC for x in res(t)):
+                    vals = [u(x) for x in res(n.value)]
+                    store_ok = any(v.startswith("[0] * len(") and SUMC.search(v) for v in vals)
+                    if not store_ok:
+                        ctx.undecided("idempotence.augment", where + " [counts store]", vals[:2], "[0] * len(<summary counts>)")
+    if guard_ok and store_ok:
+        ctx.held("idempotence.augment", where, "guard len(cube counts) != len(summary counts); the edit stores counts of the summary's length", "after the edit the guard is false on any later call")
+    elif store_ok is None or guard_ok is None:
+        ctx.undecided("idempotence.augment", where, f"guard found={guard_ok} store found={store_ok}", "guard compares the lengths the edit equalises")
 
 
 def descriptor(ctx: Ctx):
@@ -129,10 +158,37 @@ def descriptor(ctx: Ctx):
     ok = len(body) == 1 and isinstance(body[0], ast.Raise) and u(body[0].exc).startswith("AttributeError(")
     ctx.ob("descriptor", "util.py::lazyproperty.__set__", [ast.unparse(s) for s in body], "raise AttributeError unconditionally", ok, "a lazyproperty cannot be assigned: the cached value is immutable")
     g = ctx.repo.lookup(lp, "__get__")
-    body = SUMMARIZER.summarize(g.node)
-    src = ast.unparse(g.node)
-    ok = "value = obj.__dict__.get(self.__name__)" in src and "obj.__dict__[self.__name__] = value" in src and "value = self._fget(obj)" in src
-    ctx.ob("descriptor", "util.py::lazyproperty.__get__", ok, True, ok, "computed once, stored in the instance __dict__ under the wrapped name, returned thereafter")
+    res = resolver(g.node, multi=True)
+    CACHE = ["obj.__dict__[self.__name__]", "obj.__dict__.get(self.__name__)"]
+    FGET = "self._fget(obj)"
+    stores = []
+    for n in ast.walk(g.node):
+        if isinstance(n, ast.Assign):
+            for t in n.targets:
+                if isinstance(t, ast.Subscript):
+                    stores.append((t, n.value))
+    where = "util.py::lazyproperty.__get__"
+    ok_store = None
+    for t, v in stores:
+        tt = [u(x) for x in res(t)]
+        vv = [u(x) for x in res(v)]
+        if any(x == CACHE[0] for x in tt):
+            ok_store = FGET in vv and all(x in CACHE + [FGET] for x in vv)
+            if not ok_store:
+                ctx.violated("descriptor", where + " [cache store]", vv, FGET, "the value stored under the wrapped name is the computed value")
+        else:
+            ctx.undecided("descriptor", where + f" [store {u(t)[:50]}]", "a store other than the cache store", CACHE[0])
+    rets = []
+    for n in ast.walk(g.node):
+        if isinstance(n, ast.Return) and n.value is not None:
+            rets += [u(x) for x in res(n.value)]
+    other = sorted(set(r for r in rets if r not in CACHE + [FGET, "self"]))
+    if ok_store is None:
+        ctx.undecided("descriptor", where, "no store into obj.__dict__[self.__name__] found", "computed once, stored in the instance __dict__")
+    elif ok_store and not other:
+        ctx.held("descriptor", where, f"stores {FGET} under obj.__dict__[self.__name__]; returns {sorted(set(rets))}", "computed once, stored in the instance __dict__ under the wrapped name, returned thereafter")
+    elif ok_store:
+        ctx.undecided("descriptor", where, f"returns {other}", "returns the cached or the freshly computed value")
     # nobody else touches __dict__, setattr, delattr
     offenders = []
     for m in ctx.repo.all_members():
@@ -161,16 +217,38 @@ def descriptor(ctx: Ctx):
 def raw_arrays(ctx: Ctx):
     bm = ctx.repo.cls("cube.py", "_BaseMeasure")
     m = ctx.repo.lookup(bm, "raw_cube_array")
-    stmts = [s for s in m.node.body]
-    ro_at = ret_at = None
-    for i, s in enumerate(stmts):
-        if isinstance(s, ast.Assign) and u(s.targets[0]) == "raw_cube_array.flags.writeable" and u(s.value) == "False":
-            ro_at = i
-        if isinstance(s, ast.Return) and u(s.value) == "raw_cube_array":
-            ret_at = i
-    array_returns = [u(r.value) for r in ast.walk(m.node) if isinstance(r, ast.Return) and r.value is not None and u(r.value) != "None"]
-    ok = ro_at is not None and ret_at is not None and ro_at < ret_at and array_returns == ["raw_cube_array"]
-    ctx.ob("read-only-raw", "cube.py::_BaseMeasure.raw_cube_array", f"writeable=False at stmt {ro_at}, array returned at stmt {ret_at}, array returns {array_returns}", "the only array-returning path sets flags.writeable = False first", ok, "the cached raw tensor cannot be modified through any view handed out")
+    where = "cube.py::_BaseMeasure.raw_cube_array"
+    # names flagged read-only (either numpy spelling), in statement order
+    flagged: Dict[str, int] = {}
+    for n in ast.walk(m.node):
+        if isinstance(n, ast.Assign) and len(n.targets) == 1 and u(n.targets[0]).endswith(".flags.writeable") and u(n.value) == "False":
+            root = n.targets[0].value.value
+            if isinstance(root, ast.Name):
+                flagged[root.id] = n.lineno
+        if isinstance(n, ast.Call) and isinstance(n.func, ast.Attribute) and n.func.attr == "setflags" and isinstance(n.func.value, ast.Name):
+            if [k.arg for k in n.keywords] == ["write"] and u(n.keywords[0].value) == "False" and not n.args:
+                flagged[n.func.value.id] = n.lineno
+    res = resolver(m.node)
+    bad, unknown, good = [], [], 0
+    for r in ast.walk(m.node):
+        if not (isinstance(r, ast.Return) and r.value is not None):
+            continue
+        if isinstance(r.value, ast.Constant) and r.value.value is None:
+            continue
+        if isinstance(r.value, ast.Name) and r.value.id in flagged and flagged[r.value.id] < r.lineno:
+            good += 1
+            continue
+        vals = [u(x) for x in res(r.value)]
+        if any(".reshape(" in v or "_flat_values" in v for v in vals):
+            bad.append(f"line {r.lineno}: returns {vals[0][:60]} without the read-only flag")
+        else:
+            unknown.append(vals[0][:60])
+    if bad:
+        ctx.violated("read-only-raw", where, bad, "every array-returning path flags the array read-only first", "the cached raw tensor could be modified through a view handed out")
+    elif good and not unknown:
+        ctx.held("read-only-raw", where, f"{good} array-returning path(s), each returns a name flagged read-only before", "the only array-returning path sets the write flag to False first", "the cached raw tensor cannot be modified through any view handed out")
+    else:
+        ctx.undecided("read-only-raw", where, f"flagged={sorted(flagged)} other returns={unknown}", "every array-returning path flags the array read-only first")
     overriders = [c.name for c in bm.all_subclasses() if "raw_cube_array" in c.members]
     ctx.ob("read-only-raw.overrides", "cube.py::_BaseMeasure subclasses", overriders, "[]", not overriders, "no measure class bypasses the read-only base implementation")
 
